@@ -6,15 +6,16 @@ from .. import core
 PROP = "C16"
 MODULE = "GmqttVerif.Properties.C16"
 THEOREMS = [
-    "GmqttVerif.Fed.applied_is_prefix_exactly_once",
-    "GmqttVerif.Fed.applied_is_prefix_exactly_once_refuted_with_lost_hello",
-    "GmqttVerif.Fed.quiescent_equal",
-    "GmqttVerif.Fed.resync_restores",
-    "GmqttVerif.Fed.stable_stream_reaches_quiescence",
+    "GmqttVerif.Fed.applied_is_prefix_exactly_once_partial",
+    "GmqttVerif.Fed.applied_is_prefix_exactly_once_refuted",
+    "GmqttVerif.Fed.unaligned_is_silent",
     "GmqttVerif.Fed.no_event_lost_while_session_lasts",
-    "GmqttVerif.Fed.localSubs_refcount",
-    "GmqttVerif.Fed.localSubs_events_exactly_on_edges",
-    "GmqttVerif.Fed.lru_size_one_suffices",
+    "GmqttVerif.Fed.lru_only_last_id_needed",
+    "GmqttVerif.Fed.quiescent_equal_partial",
+    "GmqttVerif.Fed.quiescent_equal_refuted",
+    "GmqttVerif.Fed.stable_stream_reaches_quiescence",
+    "GmqttVerif.Fed.resync_restores_partial",
+    "GmqttVerif.Fed.clean_start_resyncs",
 ]
 COMPS = ["fedqueue", "fedsession", "localsubs", "fedsim"]
 
@@ -67,7 +68,14 @@ def gen_queue(rng):
     ops += ["open", "fetch", "fetch", "fetch"]
     return ops
 
-DUMP = re.compile(r"l=\[([0-9,]*)\] cur=(\S+) nid=(\d+) closed=([01])")
+DUMP = re.compile(r"l=\[([0-9,.]*)\] cur=(\S+) nid=(\d+) closed=([01])")
+
+def ids_of(txt):
+    if ".." in txt:
+        a, b = txt.split("..")
+        return list(range(int(a), int(b) + 1))
+    return [int(x) for x in txt.split(",") if x]
+
 
 def pred_queue(ops, out):
     """property of the queue under protocol-conformant use: ids are consecutive; the list is the contiguous ascending range of
@@ -117,7 +125,7 @@ def pred_queue(ops, out):
                 cur = k
             elif not (k == nid and cur is None):
                 return None          # position outside the queue: outside the protocol (see finding lost-hello)
-        ids = [int(x) for x in m.group(1).split(",") if x]
+        ids = ids_of(m.group(1))
         if ids != pending:
             return f"after `{op}` the queue holds {ids[:6]}.., expected the unacknowledged ids {pending[:6]}.."
         if int(m.group(3)) != nid:
@@ -550,7 +558,7 @@ RECOGNISERS = {"lost-hello": rec_lost_hello, "f19-fed": rec_f19}
 def streams(tier):
     k = 1 if tier == "quick" else 20
     return [
-        (core.Stream("fedqueue", "fedqueue", gen_queue, pred_queue, nontriv_queue, keep_prefix=1), 6000 * k),
+        (core.Stream("fedqueue", "fedqueue", gen_queue, pred_queue, nontriv_queue, keep_prefix=1), 4000 * k),
         (core.Stream("fedsession", "fedsession", gen_session, pred_session, nontriv_session, keep_prefix=1), 4000 * k),
         (core.Stream("fedsession-f19", "fedsession", lambda rng: gen_session(rng, True), pred_session, nontriv_session, keep_prefix=1), 300 * k),
         (core.Stream("localsubs", "localsubs", gen_local, pred_local, nontriv_local, keep_prefix=1), 4000 * k),
